@@ -43,6 +43,7 @@ def run(ctx, rep):
     NR.print_direct(rep, lib, rid="C15-NUMFMT")
     PR.text_rows(rep, lib)
     PR.selection_width(rep, lib)
+    PR.byte_text(rep, lib)
     # the row itself: with_result appends exactly one entry and changes nothing else
     from rules import c12
     common.share(c12, ctx, rep, {"C12-FRAME", "C12-EXTEND"}, key_prefixes=["with_result.results"], floors={"C12-FRAME": 0, "C12-EXTEND": 0})
